@@ -43,10 +43,11 @@ def model_ok(rep, rule, site, what, heap, lst, want_nodes, want_values=None, whe
     return True
 
 
-def r3_list_shapes(rep, src):
+def r3_list_shapes(rep, src, tier='quick'):
     m = src.mod(UT)
     site = UT + ':LinkedList'
-    vals = [H.Key('a', 'a'), H.Key('b', 'b'), H.Key('c', 'c')]
+    vals = [H.Key(c, c) for c in 'abcdefg']
+    top = 7 if tier == 'thorough' else 4
     newv = H.Key('x', 'x')
 
     def method(heap, lst, name):
@@ -58,7 +59,7 @@ def r3_list_shapes(rep, src):
             raise AnalysisError('LinkedList.%s contains a loop: the shape cases are no longer exhaustive' % name)
         return H.Closure(fn.node, {}, lst, fn.cls), fn
     n_cases = 0
-    for size in range(0, 4):
+    for size in range(0, top):
         # append / insert_at_head
         for op in ('append', 'insert_at_head'):
             heap = new_heap(src)
@@ -97,7 +98,7 @@ def r3_list_shapes(rep, src):
             model_ok(rep, 'C09.R3', fn.site, what, heap, lst, want, where=fn.where, detached=nodes[-1:] if op == 'pop' else ())
         # remove_node / insert_node_before / insert_node_after at every position
         for pos in range(size):
-            role = 'only' if size == 1 else 'head' if pos == 0 else 'tail' if pos == size - 1 else 'inner'
+            role = 'only' if size == 1 else 'head' if pos == 0 else 'tail' if pos == size - 1 else ('inner' if size <= 4 else 'inner#%d' % pos)
             heap = new_heap(src)
             lst, nodes = H.build_list(heap, vals[:size])
             it = H.Interp(heap)
@@ -176,7 +177,7 @@ def set_state(heap, lst, table):
     return [v.spelling for v in vals], problems
 
 
-def r2_r4_orderedset(rep, src):
+def r2_r4_orderedset(rep, src, tier='quick'):
     m = src.mod(UT)
     A, B, C = H.Key('a', 'Alpha'), H.Key('b', 'Beta'), H.Key('c', 'Gamma')
     A2 = H.Key('a', 'ALPHA')          # same key, other spelling
@@ -227,9 +228,52 @@ def r2_r4_orderedset(rep, src):
         ('order_after', [Z, A], None, 'KeyError'),
         ('order_after', [B, Z], None, 'KeyError'),
     ]
-    for opname, args, want, wantexc in cases:
-        heap, lst, table, fn, exc, before, v0 = run(opname, args)
-        what = '%s(%s) on [Alpha, Beta, Gamma]' % (opname, ', '.join(a.spelling for a in args))
+    cases = [(o, a, w, e, base) for o, a, w, e in cases]
+    if tier == 'thorough':
+        # every operation with every combination of present (other spelling) / absent arguments on sets of 0..4 keys,
+        # expected outcome from a reference model (python list of spellings)
+        allk = [H.Key('a', 'Alpha'), H.Key('b', 'Beta'), H.Key('c', 'Gamma'), H.Key('d', 'Delta')]
+        for size in range(0, 5):
+            keys = allk[:size]
+            cands = [H.Key(k.cls, k.spelling.upper()) for k in keys] + [Z]
+            model = [k.spelling for k in keys]
+            idx = {k.cls: i for i, k in enumerate(keys)}
+            for opname in ('add', 'remove', 'order_first', 'order_last'):
+                for x in cands:
+                    present = x.cls in idx
+                    m2 = list(model)
+                    exc_ = None
+                    if opname == 'add':
+                        if not present:
+                            m2.append(x.spelling)
+                    elif not present:
+                        exc_ = 'KeyError'
+                    else:
+                        item = m2.pop(idx[x.cls])
+                        if opname == 'order_first':
+                            m2.insert(0, item)
+                        elif opname == 'order_last':
+                            m2.append(item)
+                    cases.append((opname, [x], None if exc_ else m2, exc_, keys))
+            for opname in ('order_before', 'order_after'):
+                for x in cands:
+                    for y in cands:
+                        exc_ = None
+                        m2 = list(model)
+                        if x.cls == y.cls:
+                            exc_ = 'ValueError' if x.cls in idx else ('ValueError', 'KeyError')
+                        elif x.cls not in idx or y.cls not in idx:
+                            exc_ = 'KeyError'
+                        else:
+                            item = m2.pop(idx[x.cls])
+                            j = m2.index(keys[idx[y.cls]].spelling)
+                            m2.insert(j if opname == 'order_before' else j + 1, item)
+                        cases.append((opname, [x, y], None if exc_ else m2, exc_, keys))
+    for opname, args, want, wantexc, keys in cases:
+        heap, lst, table, fn, exc, before, v0 = run(opname, args, keys)
+        what = '%s(%s) on [%s]' % (opname, ', '.join(a.spelling for a in args), ', '.join(k.spelling for k in keys))
+        if isinstance(wantexc, tuple):
+            wantexc = exc.exc if (exc is not None and exc.exc in wantexc) else wantexc[0]
         if wantexc is not None:
             if exc is None:
                 rep.fail('C09.R4', fn.site, what, 'succeeds; the reference model raises %s' % wantexc, where=fn.where)
@@ -431,6 +475,6 @@ def check(src, rep, tier):
     rep.need('C09.R2', 12)
     rep.need('C09.R3', 40)
     rep.need('C09.R4', 9)
-    rep.guard('C09.R3', r3_list_shapes, src)
-    rep.guard('C09.R2', r2_r4_orderedset, src)
+    rep.guard('C09.R3', r3_list_shapes, src, tier)
+    rep.guard('C09.R2', r2_r4_orderedset, src, tier)
     rep.guard('C09.R1', r1_key_normalisation, src)
